@@ -7,6 +7,7 @@
   covariance : vcv in {None} U PSD lattice (incl. rank 0/1/2, condition 1e8, rotated) x sets with/without
                uncertainties: result None / 3x3 symmetric PSD equal to the oracle's J Q J^T
 """
+import copy
 import math
 
 import mpmath as mp
@@ -14,6 +15,7 @@ import numpy as np
 
 import geodepy.constants as gc
 from geodepy.transform import conform7
+from gpmc import cfg
 from gpmc import oracle_misc as om
 from gpmc.core import Sub, HarnessError
 
@@ -75,6 +77,18 @@ def get_trans(spec):
     if kind == 'neg':
         return -catalogue()[name]
     v = lattice_sets()[name]
+    if kind == 'assigned':
+        # built with other values, then every public parameter assigned
+        t = gc.Transformation('A', 'B', 0, *lattice_sets()['small'])
+        for f, x in zip(FIELDS, v):
+            setattr(t, f, x)
+        return t
+    if kind in ('copyadj', 'deepadj'):
+        # a (deep) copy of a shipped set adjusted by the caller
+        t = (copy.copy if kind == 'copyadj' else copy.deepcopy)(gc.gda94_to_gda2020 if name[-1] in '02468' else gc.itrf2014_to_itrf2008)
+        for f, x in zip(FIELDS, v):
+            setattr(t, f, x)
+        return t
     return gc.Transformation('A', 'B', 0, *v)
 
 
@@ -141,6 +155,10 @@ def gen_formula(tier, seed):
             yield {'trans': ['neg', name], 'pts': pts}
     for name in sorted(lattice_sets()):
         yield {'trans': ['lat', name], 'pts': pts}
+    # parameter sets that reached their values by assignment, or as adjusted copies of shipped sets
+    for i, name in enumerate(sorted(lattice_sets())):
+        if i % 6 == 0 or not name.startswith('corner'):
+            yield {'trans': [('assigned', 'copyadj', 'deepadj')[i % 3], name], 'pts': pts[::3]}
 
 
 def ev_formula(case, rec):
@@ -268,7 +286,7 @@ def ev_cov(case, rec):
     pt = case['pt']
     has_sd = type(t.tf_sd) is gc.TransformationSD
     held = []          # results of earlier calls: they belong to the caller and must stay what they were
-    for m in case['mats']:
+    for mi, m in enumerate(case['mats']):
         one = dict(case, mats=[m])
         vcv = np.array(m, dtype=float)
         before = vcv.tobytes()
@@ -324,12 +342,24 @@ def ev_cov(case, rec):
             rec.fail('returned covariance is not positive semi-definite', site='transform:conform7:vcv-psd', observed=w.tolist(),
                      case=one, coords=co)
         rec.outcome('cov-bad' if bad else 'cov-ok')
+        # the same matrix held in other array objects (read-only, Fortran order, strided window, np.matrix, exact dtypes)
+        if (mi + len(pt)) % 3 == 0 or mi < 2:
+            for nm, vf in cfg.matrix_forms(m):
+                bf = np.array(vf).tobytes()
+                stf, rf = rec.call(conform7, pt[0], pt[1], pt[2], t, vf)
+                if np.array(vf).tobytes() != bf:
+                    rec.fail('conform7 modified the covariance array supplied by the caller (%s)' % nm,
+                             site='transform:conform7:vcv-argument', observed=np.array(vf), expected=m, case=one, coords=dict(co, form=nm))
+                if stf != 'ok' or rf[3] is None or np.asarray(rf[3]).tobytes() != out.tobytes():
+                    rec.fail('conform7 answers differently when the same covariance is held in a %s array' % nm,
+                             site='transform:conform7:vcv-form', observed=rf if stf != 'ok' else rf[3], expected=out,
+                             case=one, coords=dict(co, form=nm))
     rec.sample({'trans': case['trans'], 'pt': pt, 'vcv': case['mats'][0]})
 
 
 SUBCHECKS = [
-    Sub('formula', gen_formula, ev_formula, chunk=4, floor=1000, guard=True),
-    Sub('covariance', gen_cov, ev_cov, chunk=2, floor=200, guard=True),
+    Sub('formula', gen_formula, ev_formula, chunk=4, floor=1000, guard=True, envs=3),
+    Sub('covariance', gen_cov, ev_cov, chunk=2, floor=200, guard=True, envs=2),
 ]
 
 
